@@ -36,7 +36,7 @@ def plan(tier):
                            useful_only=False, properties=[]), 3, 1 if quick else 6),
                    (byzcfg, 3, 1 if quick else 8)]
     p.scenarios = ['lock_unlock', 'relock_and_pol_proposal', 'locked_without_proposal', 'stale_polka_must_not_unlock',
-                   'lock_survives_restart']
+                   'lock_survives_restart', 'skip_round_on_precommits']
     return p
 
 
